@@ -127,7 +127,12 @@ fn main() {
             let read_with = |which: usize| -> Result<(Vec<u8>, String, bool), String> {
                 guarded(|| -> Result<(Vec<u8>, String, bool), String> {
                     let m0 = if cfg.armor { Message::from_armor(&msg[..]).map(|x| x.0).map_err(|e| e.to_string())? } else { Message::from_bytes(&msg[..]).map_err(|e| e.to_string())? };
-                    let m1 = if cfg.enc == 0 { m0 } else if which < pws.len() { m0.decrypt_with_password(&pws[which]).map_err(|e| e.to_string())? } else { let k = cfg.keys[which - pws.len()]; m0.decrypt(&Password::empty(), &pool[k]).map_err(|e| e.to_string())? };
+                    let m1 = if cfg.enc == 0 { m0 } else if which == usize::MAX {
+                        // every recipient secret in one ring, all of them checked against each other
+                        let e = Password::empty();
+                        let ring = pgp::composed::TheRing { secret_keys: cfg.keys.iter().filter(|k| !(cfg.enc == 1 && pool[**k].version() == KeyVersion::V6)).map(|k| &pool[*k]).collect(), key_passwords: vec![&e], message_password: pws.iter().collect(), session_keys: vec![], decrypt_options: pgp::composed::DecryptionOptions::new() };
+                        m0.decrypt_the_ring(ring, false).map(|x| x.0).map_err(|e| e.to_string())?
+                    } else if which < pws.len() { m0.decrypt_with_password(&pws[which]).map_err(|e| e.to_string())? } else { let k = cfg.keys[which - pws.len()]; m0.decrypt(&Password::empty(), &pool[k]).map_err(|e| e.to_string())? };
                     let mut m2 = if m1.is_compressed() { m1.decompress().map_err(|e| e.to_string())? } else { m1 };
                     let mut out = Vec::new();
                     // uneven reads: the reader must not care
@@ -147,6 +152,12 @@ fn main() {
                 match read_with(wi) {
                     Ok((o, name, sigs)) => { let ok = o == payload && name == cfg.name && sigs; all_ok &= ok; if !ok { verdicts.push(format!("secret {wi}: payload-equal={} name-equal={} signatures-verify={}", o == payload, name == cfg.name, sigs)); } if !(o == payload && sigs) { only_name = false; } }
                     Err(e) => { all_ok = false; only_name = false; verdicts.push(format!("secret {wi}: {}", &e[..e.len().min(100)])); }
+                }
+            }
+            if cfg.enc != 0 && nsecrets >= 2 {
+                match read_with(usize::MAX) {
+                    Ok((o, name, sigs)) => { let ok = o == payload && name == cfg.name && sigs; all_ok &= ok; if !ok { verdicts.push(format!("all secrets together: payload-equal={} name-equal={} signatures-verify={}", o == payload, name == cfg.name, sigs)); } if !(o == payload && sigs) { only_name = false; } }
+                    Err(e) => { all_ok = false; only_name = false; verdicts.push(format!("all secrets together: {}", &e[..e.len().min(100)])); }
                 }
             }
             let cls = format!("enc{}-{}-{}{}", cfg.enc, if cfg.comp.is_some() { "comp" } else { "plain" }, if cfg.signers.is_empty() { "unsigned" } else { "signed" }, if cfg.armor { "-armor" } else { "" });
